@@ -78,7 +78,7 @@ class Gen:
     def rand_shape(self, max_ndim=None, min_ndim=0, max_elems=None):
         max_ndim = self.max_ndim if max_ndim is None else max_ndim
         max_elems = max_elems or self.max_elems
-        nd = self.r.randint(min_ndim, max_ndim)
+        nd = self.r.randint(min(min_ndim, max_ndim), max_ndim)
         shape = []
         n = 1
         for _ in range(nd):
@@ -129,7 +129,7 @@ class Gen:
     def leaf(self, shape=None, dtype=None, constant="rand", positive=False):
         h = self.new_h()
         dtype = dtype or self.choice(self.dtypes)
-        shape = self.rand_shape() if shape is None else shape
+        shape = self.rand_shape(min_ndim=(self.cfg.get("leaf_min_ndim", 0) if self.coin(0.7) else 0)) if shape is None else shape
         v = self.rand_vals(shape, dtype, positive=positive)
         if constant == "rand":
             constant = self.wchoice([(None, 6), (True, 1), (False, 1)]) if self.cfg.get("const_flags") else None
